@@ -11,6 +11,13 @@ Specification: spec/P2Bin.tla (on top of spec/CodeFile.tla)
     fill where nobody covers, any covering record's byte where records overlap (manual silent about the winner),
     entry header, zero byte sum, overlap warning <=> two selected records share an address.
 
+(F) spec/FilterList.tla: the option state behind -f (shared toolutils.c CMD_FilterList/FilterOK + cmdarg.c ProcessCMD):
+    a case carries the SEQUENCE of -f (add) / +f (cancel) operations, those preset through P2BINCMD first; operational =
+    the FilterBytes array with append-unless-found and swap-remove, declarative = an id is in the filter iff the last
+    elementary operation naming it is an add, empty filter = no filtering.  FilterList_MC: all sequences of <= 5 (6)
+    operations over 4 ids.  P2Bin_CoverFilt.cfg replays every sequence of FilterList!FPatterns (lists of 1..4 families;
+    cancel first / middle / last / absent / repeated / all; cancel before add; re-add; duplicates; the same through
+    P2BINCMD with and without command-line operations after it) and BigPatterns (the 100 entries the array holds).
 (M) P2Bin_MC: the program as a step machine over EVERY case of four bounded case spaces (cfg files P2Bin_MC_*.cfg:
     window x lanes x overlaps; selection by -f/-segment/granularity; header/entry/checksum; several files with
     offsets): Conforms (output satisfies the declarative property), StepRunAgrees, ChunkListOK, WindowStable,
@@ -23,7 +30,7 @@ Specification: spec/P2Bin.tla (on top of spec/CodeFile.tla)
     p2bin and compares (rc, bytes, overlap warning) with exp.
 (V) P2Bin_Trace: every run whose observation differs from exp, and every run on a real code file (golden tests
     assembled by the real asl, records tokenised by the independent reader, seed-chosen windows/lanes/filters/
-    headers), is handed to TLC, which evaluates Verdict: ok = Definite => Allowed(observation); fit = the smallest
+    headers, -f/+f operation sequences incl. P2BINCMD presets), is handed to TLC, which evaluates Verdict: ok = Definite => Allowed(observation); fit = the smallest
     set of named deviations under which Run reproduces the observation exactly.
 Verdict: ~ok is a violation; it is a KNOWN finding only if fit names deviations that are all listed `known`
     (one known entry per deviation); ~ok with fit = none is an unexplained VIOLATION.  ok but fit = none is
@@ -101,19 +108,23 @@ def render(c, r):
         opts.append(["-e", utilrun.num(o["e"], r.randrange(4))])
     if o["sum"]:
         opts.append(["-s"])
-    if o["filt"]:
-        opts.append(["-f", ",".join(utilrun.num(x, r.randrange(4)) for x in o["filt"])])
     if o["seg"] != 1 or r.random() < 0.2:
         opts.append(["-segment", r.choice([SEGNAMES[o["seg"]], SEGNAMES[o["seg"]].upper()])])
     opts.append(["-q"])
-    r.shuffle(opts)
+    fcmd, env = utilrun.filter_ops(o["fops"], r, "P2BINCMD")
+    opts = utilrun.weave(opts, fcmd, r)
     flat = [x for op in opts for x in op]
     target = r.choice(["out.bin", "out"])
     if r.random() < 0.5:
         argv = flat + names + [target]
     else:
         argv = names + [target] + flat
-    return {"argv": argv, "files": files, "want": ["out.bin"]}
+    if env and r.random() < 0.4:
+        # further options preset through the environment; the command line comes after it and wins
+        env["P2BINCMD"] = r.choice(["-l 0x11 ", "-q ", "-m all "]) + env["P2BINCMD"]
+        if "-l" in env["P2BINCMD"] and "-l" not in flat:
+            argv = argv + ["-l", utilrun.num(o["fill"], r.randrange(4))]
+    return {"argv": argv, "files": files, "want": ["out.bin"], "env": env}
 
 
 def observe(res):
@@ -163,7 +174,7 @@ def corpus_options(items, r, maxwin):
         seg = r.choice(segs) if r.random() < 0.7 else 1
         sel = [it for it in data if it["seg"] == seg]
         o = {"rs": -1, "re": -1, "fill": r.choice([255, 0, 0xA5]), "lane": "ALL", "hdr": 0, "e": -1, "sum": False,
-             "filt": [], "seg": seg}
+             "fops": [], "seg": seg}
         if sel:
             it = r.choice(sel)
             g = it["gran"]
@@ -187,8 +198,14 @@ def corpus_options(items, r, maxwin):
             o["lane"] = lane
         else:
             o["rs"], o["re"] = 0, 15
-        if r.random() < 0.3:
-            o["filt"] = [r.choice(cpus)] if r.random() < 0.7 else [r.choice(cpus) ^ 0x40]
+        if r.random() < 0.35:
+            a, b, x = r.choice(cpus), r.choice(cpus), r.choice(cpus) ^ 0x40
+            o["fops"] = r.choice([
+                [{"neg": False, "list": [a], "env": False}],
+                [{"neg": False, "list": [x], "env": False}],
+                [{"neg": False, "list": [x, a, b ^ 0x21], "env": False}, {"neg": True, "list": [x], "env": False}],
+                [{"neg": False, "list": [a, x, b ^ 0x21], "env": True}, {"neg": True, "list": [x], "env": False}],
+                [{"neg": False, "list": [a, x], "env": False}, {"neg": True, "list": [a], "env": False}]])
         if r.random() < 0.3:
             o["hdr"] = r.choice([-4, -3, -2, -1, 1, 2, 3, 4])
             if r.random() < 0.5:
@@ -248,11 +265,13 @@ def judge(rep, tier, pending, bld):
             continue
         files = dict(job["files"])
         files["argv.json"] = json.dumps(job["argv"])
+        files["env.json"] = json.dumps(job.get("env") or {})
         files["observed.json"] = json.dumps(obs)
         exp = v["model"]
         files["expected_by_spec.json"] = json.dumps(exp)
-        what = ("p2bin %s: observed %s; the specification demands (one allowed output) %s"
-                % (" ".join(job["argv"]), _short(obs), _short(exp)))
+        what = ("%sp2bin %s: observed %s; the specification demands (one allowed output) %s"
+                % ("".join("%s='%s' " % kv for kv in (job.get("env") or {}).items()), " ".join(job["argv"]),
+                   _short(obs), _short(exp)))
         if fit == ["none"] or not fit:
             rep.violation(what + (" [no named deviation explains it]" if fit else " [the repaired model agrees with "
                           "the program but the declarative property rejects both]"), case=c, files=files,
@@ -289,6 +308,12 @@ def main(tier):
         if mc.violation:
             raise CheckError("P2Bin with all repairs violates its own property in %s: %s" % (cfg, mc.violation[:800]))
         rep.model("P2Bin_MC(%s)" % cfg, mc)
+    if not nomc:
+        fl = tlc.must(tlc.run("FilterList_MC", "FilterList_MC5.cfg" if tier == "quick" else "FilterList_MC.cfg", timeout=900,
+                              mem="4g", collect=False), "FilterList_MC")
+        if fl.violation:
+            raise CheckError("FilterList violates its invariants: %s" % fl.violation[:600])
+        rep.model("FilterList_MC", fl)
     found = {}
     for d in ([] if nomc else DEVS):
         mc = tlc.must(tlc.run("P2Bin_MC", DEV_CFG[d], timeout=900, mem="6g", collect=False, workers=4), DEV_CFG[d])
@@ -299,8 +324,8 @@ def main(tier):
 
     # (G) ------------------------------------------------------------------------------------------
     cases = []
-    for cfg in (["P2Bin_Cover.cfg", "P2Bin_CoverOvl.cfg", "P2Bin_CoverBig.cfg"] if tier == "quick"
-                else ["P2Bin_Cover1.cfg", "P2Bin_CoverOvl.cfg", "P2Bin_CoverBig.cfg", "P2Bin_Cover2.cfg"]):
+    for cfg in (["P2Bin_Cover.cfg", "P2Bin_CoverOvl.cfg", "P2Bin_CoverBig.cfg", "P2Bin_CoverFilt.cfg"] if tier == "quick"
+                else ["P2Bin_Cover1.cfg", "P2Bin_CoverOvl.cfg", "P2Bin_CoverBig.cfg", "P2Bin_CoverFilt.cfg", "P2Bin_Cover2.cfg"]):
         with Phase("TLC " + cfg):
             cov = tlc.must(tlc.run("P2Bin_Gen", cfg, timeout=1500, mem="8g"), cfg)
         rep.model("P2Bin_Gen(%s)" % cfg, cov)
@@ -398,11 +423,14 @@ def replay(path):
     v = json.load(open(os.path.join(path, "violation.json")))
     bld = build.get("hook")
     argv = json.load(open(os.path.join(path, "argv.json")))
+    envp = os.path.join(path, "env.json")
+    env = json.load(open(envp)) if os.path.exists(envp) else {}
+    log("environment: %s" % env)
     files = {}
     for n in os.listdir(path):
         if n.endswith(".p"):
             files[n] = open(os.path.join(path, n), "rb").read()
-    res = utilrun.run_one(bld, "p2bin", {"argv": argv, "files": files, "want": ["out.bin"]})
+    res = utilrun.run_one(bld, "p2bin", {"argv": argv, "files": files, "want": ["out.bin"], "env": env})
     obs = observe(res)
     log("p2bin %s" % " ".join(argv))
     log("observed now : %s" % _short(obs))
